@@ -3,8 +3,9 @@
 
 request   {"op": add|sub|mul|div|floordiv|pow, "e1": [[cat,unit,exp],..], "c1": caption, "v1": "n/d",
            "e2": .., "c2": .., "v2": ..   (binary operators)   |   "n": int   (pow)}
-answer    {"ok": {"e": [[cat,unit,exp],..], "cap": caption, "derived": bool}, "v": "n/d", "M": "n/d"
-           [, "quot": "n/d"  (floordiv: the exact matched quotient)]}   |   {"err": kind}
+answer    {"ok": {"e": [[cat,unit,exp],..], "cap": caption, "derived": bool}, "v": "n/d", "M": "n/d", "br": [..]
+           [, "quot": "n/d"  (floordiv: the exact matched quotient)]}   |   {"err": kind, "br": [..]}
+           ("br": the branches of the modelled functions this request went through)
 
 `M` is the error-propagation magnitude of the exact evaluation in the result's unit: every conversion step
 contributes the magnitude of its intermediate quantities (offsets included) and scales what was accumulated
@@ -89,6 +90,67 @@ def powMag (db : Db) (q : Quantity) (v : Rat) : Nat → Quantity → Rat → Rat
     | .error _ => m
     | .ok (rq', rv') => powMag db q v k rq' rv' (newMag db .mul rq q rv v m (absR v))
 
+
+/-! branch tags of the modelled functions hit by a request (reported as "br", tallied in the evidence) -/
+
+def matchTags (db : Db) (side : String) : List (Sym × Sym) → List Entry → Rat → List String × List (Sym × Sym)
+  | used, [], _ => ([], used)
+  | used, e :: es, v =>
+    match catQType db e.cat with
+    | .error _ => ([s!"match{side}:unknown-category"], used)
+    | .ok qt =>
+      match lookupU qt used with
+      | none =>
+        let (t, u) := matchTags db side ((qt, e.unit) :: used) es v
+        (s!"match{side}:first-unit-of-type" :: t, u)
+      | some w =>
+        let tag := if e.unit == w then "same-unit" else if e.exp == 1 then "convert-exp1" else "scale-ratio-pow-exp"
+        match convertMatchingExp db qt e.unit w e.exp v with
+        | .error _ => ([s!"match{side}:{tag}:error"], used)
+        | .ok v1 =>
+          let (t, u) := matchTags db side used es v1
+          (s!"match{side}:{tag}" :: t, u)
+
+def bothMatchTags (db : Db) (q1 q2 : Quantity) (v1 v2 : Rat) : List String :=
+  let (t1, used) := matchTags db "1" [] q1.entries v1
+  let (t2, _) := matchTags db "2" used q2.entries v2
+  t1 ++ t2
+
+def shapeTag (q : Quantity) : String :=
+  if q.entries.isEmpty then "result:empty" else if q.derived then "result:derived" else "result:simple"
+
+def sameTags (db : Db) (q1 q2 : Quantity) (v1 v2 : Rat) : List String :=
+  if q1.eqv q2 then ["same:equal-quantities"] else
+  bothMatchTags db q1 q2 v1 v2 ++
+  match matchQuantities db q1.entries q2.entries v1 v2 with
+  | .error _ => ["same:matching-failed"]
+  | .ok (e1, e2, _, _) =>
+    if sameSet (joined e1) (joined e2) then ["same:unit-sets-equal"]
+    else if (joined e1).isEmpty then ["same:left-has-no-units"]
+    else if (joined e2).isEmpty then ["same:right-has-no-units"]
+    else ["same:units-differ-error"]
+
+def mergeTags (e1 : List Entry) (e2 : List Entry) : List String :=
+  e2.map (fun x => if e1.any (·.cat == x.cat) then "merge:existing-category" else "merge:new-category")
+
+def newTags (db : Db) (op : NewOp) (q1 q2 : Quantity) (v1 v2 : Rat) : List String :=
+  bothMatchTags db q1 q2 v1 v2 ++
+  match matchQuantities db q1.entries q2.entries v1 v2 with
+  | .error _ => ["new:matching-failed"]
+  | .ok (e1, e2, _, w2) =>
+    mergeTags e1 e2 ++
+    (match mergeAll (expOp op) e1 e2 with
+     | .error _ => ["merge:error"]
+     | .ok m => m.map (fun e => if e.exp == 0 then "drop:own-exponent-0"
+                                else if unitTotal e.unit m == 0 then "drop:unit-total-0" else "drop:kept"))
+    ++ (if op != .mul && w2 == 0 then ["value:zero-divisor"] else [])
+
+def dedupS : List String → List String
+  | [] => []
+  | x :: xs => if xs.contains x then dedupS xs else x :: dedupS xs
+
+def brJ (tags : List String) : List (String × Json) := [("br", Json.arr ((dedupS tags).map Json.str).toArray)]
+
 def entryJ (e : Entry) : Json := Json.arr #[symJ e.cat, symJ e.unit, .str (toString e.exp)]
 
 def quantityJ (q : Quantity) : Json :=
@@ -113,10 +175,10 @@ def getQuantity (j : Json) (i : String) : Except String (Quantity × Rat) := do
     | _ => true
   pure (⟨es, cap, derived⟩, v)
 
-def answer (r : Except ErrKind (Quantity × Rat)) (m : Rat) (extra : List (String × Json) := []) : Json :=
+def answer (r : Except ErrKind (Quantity × Rat)) (m : Rat) (tags : List String) (extra : List (String × Json) := []) : Json :=
   match r with
-  | .error e => errJ e
-  | .ok (q, v) => Json.mkObj ([("ok", quantityJ q), ("v", ratJ v), ("M", ratJ (maxR m (absR v)))] ++ extra)
+  | .error e => Json.mkObj ([("err", .str e.name)] ++ brJ tags)
+  | .ok (q, v) => Json.mkObj ([("ok", quantityJ q), ("v", ratJ v), ("M", ratJ (maxR m (absR v)))] ++ brJ (shapeTag q :: tags) ++ extra)
 
 def handle (j : Json) : Except String Json := do
   let db := Gen.poscDb
@@ -125,7 +187,8 @@ def handle (j : Json) : Except String Json := do
   match op with
   | "pow" =>
     let n ← getInt j "n"
-    pure (answer (pow db q1 v1 n) (powMag db q1 v1 (n - 1).toNat q1 v1 (absR v1)))
+    pure (answer (pow db q1 v1 n) (powMag db q1 v1 (n - 1).toNat q1 v1 (absR v1))
+      (if n ≤ 1 then ["pow:no-iteration"] else "pow:loop" :: newTags db .mul q1 q1 v1 v1))
   | _ =>
     let (q2, v2) ← getQuantity j "2"
     match op with
@@ -136,13 +199,15 @@ def handle (j : Json) : Except String Json := do
         else
           let (n1, n2) := matchedMags db q1.entries q2.entries v1 v2 (absR v1) (absR v2)
           n1 + n2
-      pure (answer (opSame db sop q1 q2 v1 v2) m)
-    | "mul" => pure (answer (opNew db .mul q1 q2 v1 v2) (newMag db .mul q1 q2 v1 v2 (absR v1) (absR v2)))
-    | "div" => pure (answer (opNew db .div q1 q2 v1 v2) (newMag db .div q1 q2 v1 v2 (absR v1) (absR v2)))
+      pure (answer (opSame db sop q1 q2 v1 v2) m (sameTags db q1 q2 v1 v2))
+    | "mul" => pure (answer (opNew db .mul q1 q2 v1 v2) (newMag db .mul q1 q2 v1 v2 (absR v1) (absR v2))
+        (newTags db .mul q1 q2 v1 v2))
+    | "div" => pure (answer (opNew db .div q1 q2 v1 v2) (newMag db .div q1 q2 v1 v2 (absR v1) (absR v2))
+        (newTags db .div q1 q2 v1 v2))
     | "floordiv" =>
       let (w1, w2) := matchedVals db q1.entries q2.entries v1 v2
       pure (answer (opNew db .floordiv q1 q2 v1 v2) (newMag db .div q1 q2 v1 v2 (absR v1) (absR v2))
-        [("quot", ratJ (w1 / w2))])
+        (newTags db .floordiv q1 q2 v1 v2) [("quot", ratJ (w1 / w2))])
     | _ => throw s!"unknown op {op}"
 
 def step (j : Json) : Json :=
